@@ -5,6 +5,7 @@ import (
 	"go/ast"
 	"go/token"
 	"go/types"
+	"strings"
 
 	"golibcheck/internal/core"
 	"golibcheck/internal/paths"
@@ -464,4 +465,31 @@ func inlineValue(p *core.Program, fi *core.FuncInfo, e ast.Expr, depth int) ast.
 	val := expandLocals(info, cfi.Decl.Body, last.Results[0])
 	sub, _ := paths.Subst(info, val, repl).(ast.Expr)
 	return inlineValue(p, fi, sub, depth+1)
+}
+
+// importQueueRules runs the request-queue rules (C11) on the single RequestQueue and files their
+// verdicts under one rule of another property: the one-way client's queue mode and the log-sink
+// sender both hand their records to that queue and wait on it with a timeout, so a queue that drops,
+// reorders or never times out breaks them just the same.
+func importQueueRules(p *core.Program, r *core.Report, rule string) {
+	sub := core.NewReport("C11", r.Tier)
+	sub.Config = r.Config
+	runC11(p, sub)
+	for _, ob := range sub.Obs {
+		if !strings.Contains(ob.Construct, "RequestQueue.") || strings.Contains(ob.Construct, "zzCanary") {
+			continue
+		}
+		if !(strings.HasPrefix(ob.Rule, "C11.timeout") || strings.HasPrefix(ob.Rule, "C11.wait") || strings.HasPrefix(ob.Rule, "C11.capacity") || strings.HasPrefix(ob.Rule, "C11.signal") || strings.HasPrefix(ob.Rule, "C11.fifo")) {
+			continue
+		}
+		c := strings.TrimPrefix(ob.Rule, "C11.") + ": " + ob.Construct
+		switch ob.Verdict {
+		case core.OK:
+			r.OK(rule, c, ob.Pos, ob.Detail)
+		case core.Violation:
+			r.Viol(rule, c, ob.Pos, ob.Detail)
+		case core.Undecided:
+			r.Undec(rule, c, ob.Pos, ob.Detail)
+		}
+	}
 }
